@@ -10,6 +10,8 @@
 //          (back=pre; filled by the hand-written loops if src=hand, else by the eigen callbacks));
 //          any subset of {K,D,F}
 //   fam=O  a sequence of OBJECTS (struct Obj, not an index) + hand-written callbacks on objects
+//   fam=X / fam=Y  tapkee::embed(begin, end, k, d, f, params) called directly, with tapkee's eigen callbacks /
+//          with the counting callbacks (no chain)
 // order = the order in which withKernel/withDistance/withFeatures are attached (a string over K,D,F
 // without repetition, e.g. "FKD"); entry = range (embedRange(begin,end)) | using (embedUsing(container)).
 //
@@ -496,6 +498,33 @@ int main()
                 eigen_distance_callback dcb(X);
                 eigen_features_callback fcb(X);
                 out = walk<FAM_E, 0>(with(ps), order.c_str(), kcb, dcb, fcb, idx.begin(), idx.end(), idx, use_container);
+            }
+            else if (fam == "X")
+            {
+                // tapkee::embed called directly (no chain) with tapkee's eigen callbacks
+                if constexpr (allowed(FAM_E, 7))
+                {
+                    eigen_kernel_callback kcb(X);
+                    eigen_distance_callback dcb(X);
+                    eigen_features_callback fcb(X);
+                    out = tapkee::embed(idx.begin(), idx.end(), kcb, dcb, fcb, ps);
+                }
+                else
+                    throw not_built();
+            }
+            else if (fam == "Y")
+            {
+                // tapkee::embed called directly with the counting callbacks
+                if constexpr (allowed(FAM_U, 7))
+                {
+                    UCb<0, IndexType> kcb(&backing);
+                    UCb<1, IndexType> dcb(&backing);
+                    UCb<2, IndexType> fcb(&backing);
+                    const std::vector<IndexType>& cidx = idx;
+                    out = tapkee::embed(cidx.begin(), cidx.end(), kcb, dcb, fcb, ps);
+                }
+                else
+                    throw not_built();
             }
             else if (fam == "U")
             {
